@@ -3,6 +3,7 @@
 package sim
 
 import (
+	"google.golang.org/protobuf/types/known/wrapperspb"
 	"bufio"
 	"context"
 	"fmt"
@@ -681,7 +682,13 @@ func (w *World) clientOp(op string, m map[string]string) {
 		idx := rs.nsent
 		rs.nsent++
 		pl := payloadFor(r, 'c', idx, size)
-		msg := &Msg{Value: pl}
+		var msg proto.Message = &Msg{Value: pl}
+		if m["bad"] == "1" {
+			// a message that cannot be encoded (a proto3 string that is not valid UTF-8): SendMsg fails
+			// before anything reaches the carrier
+			pl = nil
+			msg = wrapperspb.String("\xff\xfe not utf-8")
+		}
 		w.logf("call who=cw%d op=send idx=%d ser=%d len=%d dg=%x", r, idx, proto.Size(msg), len(pl), digest(pl))
 		if !rs.cw.do(func() {
 			defer guard(rs.cw.name, "send")()
